@@ -61,12 +61,17 @@ def cases(seed, tier):
         d = gen.scenario(rng, sched="scripted", nmax=4, sess_max=5, constraint_free_p=0.0, mr=1, max_len=1, p_empty=0.0, p_st=1.0, mode="full",
                          kinds=("EVSE",), big=True)
         H = rng.choice([8200, 8928, 16500])
-        off = {}
+        off, keep = {}, []
         for k, s_ in enumerate(sorted(d["sessions"], key=lambda x: (x["station"], x["arrival"]))):
             base = off.get(s_["station"], rng.choice([0, H // 3]))
-            s_["arrival"] = base + rng.randint(0, 40)
-            s_["departure"] = s_["est_dep"] = min(H, s_["arrival"] + rng.randint(H // 3, H // 2))
+            a = base + rng.randint(0, 40)
+            if a >= H - 50:
+                continue  # this station is busy until the end already
+            s_["arrival"] = a
+            s_["departure"] = s_["est_dep"] = min(H, a + rng.randint(H // 3, H // 2))
             off[s_["station"]] = s_["departure"]
+            keep.append(s_)
+        d["sessions"] = keep
         last = max(d["sessions"], key=lambda x: x["departure"])
         last["departure"] = last["est_dep"] = H
         d["recompute"] = []
